@@ -7,7 +7,7 @@ import random
 
 from .. import common, identlib
 from ..gen import cfggen, edits
-from ..translate import hashflags, hashsrc
+from ..translate import argflags, hashflags, hashsrc
 from .c02 import id_steps, ids_of
 
 PROP = "C03"
@@ -18,6 +18,8 @@ def prove(ctx):
     msgs = [hashflags.generate(common.REPO, common.LEAN, probe=identlib.loop_flag_probe(ctx)), hashsrc.generate(common.REPO, common.LEAN)]
     ctx.notes.append(f"translator(hashsrc): {msgs[1][1]}")
     ctx.count("translator", "hashsrc:" + ("translated" if msgs[1][1].startswith("translated") else "fallback"))
+    msgs.append(argflags.generate(common.REPO, common.LEAN, probe=identlib.inherit_rule_probe(ctx)))   # Generated/ArgFlags.lean: the driver derives the argument flags with it
+    ctx.notes.append(f"translator(argflags): {msgs[-1][1]}")
     common.check_proofs(ctx, MODULES, translate_msgs=msgs)
 
 
